@@ -156,9 +156,15 @@ structure Shape3 where
   judge : V3 Rat → V3 Rat → Rat → String
   /-- which norm the documented algorithm takes of the direction: 0 = none, 1 = `|dir|` (normalise-then-scale
   shapes), 2 = `|(dir.x, dir.z)|` (cone, cylinder).  Used only to recognise *legitimate binary64 underflow*: the
-  oracle skips a near-zero direction iff that squared norm is exactly `0.0` in `Float` although it is non-zero in
+  oracle skips a near-zero direction iff that squared norm is zero or subnormal in `Float` (`tinySq`) although it is non-zero in
   exact arithmetic. -/
   uf : Nat := 0
+
+/-- the squared norm the algorithm takes has left the normal range of binary64 (zero or *subnormal*, below `2^-1022`):
+gradual underflow has already discarded mantissa bits of the square, so the normalised direction carries a relative
+error far above the oracle tolerance (seen: `dir.z = 2^-529`, `dir.z² = 2^-1058` keeps 16 bits, cone rim point off by
+`4.5e-8·r`).  Same phenomenon as the exact-zero case; the oracles skip both as `direction-underflows`. -/
+def tinySq (x : Float) : Bool := x < 2.2250738585072014e-308
 
 /-- a shape that uses the trait defaults for `_toward` / posed variants -/
 def dflt3 (loc : V3 Float → Option (V3 Float)) (finiteArgs : Bool) (j : V3 Rat → V3 Rat → Rat → String) : Shape3 :=
@@ -366,11 +372,11 @@ def mode3 (sh : P Shape3) (mode : String) : Option Handler :=
           let D := rescale (q3 d)
           let M := qiso3 m
           let Dl := if posedMode then M.invRot D else D
-          -- legitimate underflow: the squared norm the algorithm takes is exactly 0.0 in binary64
+          -- legitimate underflow: the squared norm the algorithm takes is 0.0 or subnormal in binary64 (`tinySq`)
           let dl : V3 Float := if posedMode then m.invRot d else d
           let under := match s.uf with
-            | 1 => d.normSq == 0.0 || dl.normSq == 0.0
-            | 2 => (⟨dl.x, 0, dl.z⟩ : V3 Float).normSq == 0.0 && (Dl.x != 0 || Dl.z != 0)
+            | 1 => tinySq d.normSq || tinySq dl.normSq
+            | 2 => tinySq (⟨dl.x, 0, dl.z⟩ : V3 Float).normSq && (Dl.x != 0 || Dl.z != 0)
             | _ => false
           if under then "skip direction-underflows" else
           withOut po3 o fun p =>
@@ -405,7 +411,7 @@ def mode2 (sh : P Shape2) (mode : String) : Option Handler :=
           let D : V2 Rat := ⟨D3.x, D3.y⟩
           let M := qiso2 m
           let dl : V2 Float := if posedMode then m.invRot d else d
-          let under := s.uf == 1 && (d.normSq == 0.0 || dl.normSq == 0.0)
+          let under := s.uf == 1 && (tinySq d.normSq || tinySq dl.normSq)
           if under then "skip direction-underflows" else
           withOut po2 o fun p =>
             if !finite2 p then "fail nonfinite-output" else
